@@ -2,6 +2,7 @@ pub mod c02;
 pub mod c03;
 pub mod c04;
 pub mod c05;
+pub mod c06;
 pub mod c07;
 pub mod cfgrammar;
 pub mod c08;
@@ -19,6 +20,7 @@ pub fn run(prop: &str, tier: Tier, replay: Option<Value>) -> ! {
         "C03" => c03::run(tier, replay),
         "C04" => c04::run(tier, replay),
         "C05" => c05::run(tier, replay),
+        "C06" => c06::run(tier, replay),
         "C07" => c07::run(tier, replay),
         "C08" => c08::run(tier, replay),
         "C19" => c19::run(tier, replay),
